@@ -75,15 +75,42 @@ impl HashChain for ModelChain {
             }
         })
     }
-    fn update_hash(&mut self, input: &[u8], _pos: u32, length: u32) {
+    fn update_hash(&mut self, input: &[u8], pos: u32, length: u32) {
         // the real update_chain debug_asserts this
         assert!(length as usize <= input.len(), "update_hash length exceeds the remaining input");
         assert!(length <= crate::hash_chain::MAX_UPDATE_HASH_BATCH);
+        // log the positions the real update_chain would insert (it inserts nothing when the batch reaches
+        // into the last num_hash_bytes-1 bytes): both sides of a mirror must drive the dictionary identically
+        if length as usize + self.nhb - 1 >= input.len() {
+            return;
+        }
+        unsafe {
+            let s = UPD_SIDE;
+            let mut i = 0;
+            while i < length {
+                if UPD_N[s] < UPD_CAP { UPD_LOG[s][UPD_N[s]] = pos + i; }
+                UPD_N[s] += 1;
+                i += 1;
+            }
+        }
     }
     fn checksum(&self, _c: &mut DebugHash) {}
 }
 
 pub static mut MODEL: Option<ModelChain> = None;
+pub const UPD_CAP: usize = 16;
+pub static mut UPD_LOG: [[u32; UPD_CAP]; 2] = [[0; UPD_CAP]; 2];
+pub static mut UPD_N: [usize; 2] = [0; 2];
+pub static mut UPD_SIDE: usize = 0;
+/// the two sides inserted exactly the same positions, in the same order
+pub fn same_dictionary_updates() -> bool {
+    unsafe {
+        if UPD_N[0] != UPD_N[1] || UPD_N[0] > UPD_CAP { return false; }
+        let mut i = 0;
+        while i < UPD_CAP { if i < UPD_N[0] && UPD_LOG[0][i] != UPD_LOG[1][i] { return false; } i += 1; }
+        true
+    }
+}
 
 #[derive(Default, Copy, Clone)]
 pub struct ModelHash3 {}
